@@ -4,6 +4,7 @@ import (
 	"bytes"
 	"context"
 	"encoding/binary"
+	"strconv"
 	"time"
 
 	"github.com/TarsCloud/TarsGo/tars/protocol"
@@ -27,6 +28,10 @@ type Protocol struct {
 
 const (
 	reconnectMsg = "_reconnect_"
+
+	// keys of the status map that carry the result of a TUP-versioned call
+	statusResultCode = "STATUS_RESULT_CODE"
+	statusResultDesc = "STATUS_RESULT_DESC"
 )
 
 // NewTarsProtocol return a TarsProtocol with dispatcher and implement interface.
@@ -162,6 +167,21 @@ func (s *Protocol) req2Byte(rsp *requestf.ResponsePacket) []byte {
 	req.Context = rsp.Context
 	req.Status = rsp.Status
 	req.SBuffer = rsp.SBuffer
+	// a TUP reply has no result fields: by the Tars convention a non-zero return code and
+	// the error description travel in the status map
+	if rsp.IRet != 0 || rsp.SResultDesc != "" {
+		status := make(map[string]string, len(rsp.Status)+2)
+		for k, v := range rsp.Status {
+			status[k] = v
+		}
+		if rsp.IRet != 0 {
+			status[statusResultCode] = strconv.FormatInt(int64(rsp.IRet), 10)
+		}
+		if rsp.SResultDesc != "" {
+			status[statusResultDesc] = rsp.SResultDesc
+		}
+		req.Status = status
+	}
 
 	os := codec.NewBuffer()
 	req.WriteTo(os)
